@@ -314,7 +314,9 @@ impl Operator for ConcatFromSequence {
                 // The Concat op only supports concatenating on an existing axis, so
                 // if `new_axis` is set, add a 1-sized axis to each of the values.
                 if self.new_axis {
-                    let resolved_axis = resolve_axis(value.ndim(), self.axis as isize)?;
+                    // The axis refers to a dimension of the output, which has
+                    // one more dimension than the values.
+                    let resolved_axis = resolve_axis(value.ndim() + 1, self.axis as isize)?;
                     map_value_view!(value, tensor, {
                         let mut tensor = tensor;
                         tensor.insert_axis(resolved_axis);
